@@ -246,7 +246,13 @@ func (s *server) DeleteTable(ctx context.Context, req *btapb.DeleteTableRequest)
 	if _, ok := s.tables[req.Name]; !ok {
 		return nil, status.Errorf(codes.NotFound, "table %q not found", req.Name)
 	}
+	tbl := s.tables[req.Name]
 	delete(s.tables, req.Name)
+	// A storage that outlives the process must forget the table as well, or it is back
+	// (with its rows) after a restart.
+	if d, ok := s.storage.(interface{ DeleteTable(*btapb.Table) }); ok {
+		d.DeleteTable(tbl.def)
+	}
 	return &emptypb.Empty{}, nil
 }
 
